@@ -649,7 +649,7 @@ func (ex *Exec) useContract(fr *Frame, st *State, con *Contract, key string, fn 
 	}
 	ex.bindLets(envPost, con)
 	for _, c := range con.Ensures {
-		if usesCalls(c.E) {
+		if ex.usesCallsDeep(con.PkgPath, c.E, map[*SpecFunc]bool{}) {
 			continue // statements about the callee's own calls are not facts about the caller's counters
 		}
 		ex.assume(st, ex.evalBool(envPost, c))
@@ -1044,6 +1044,30 @@ func (ex *Exec) doAppend(st *State, s, xs Val, rt types.Type) Val {
 		ex.heapSet(st, name, Store(h, id, row))
 	}
 	return Val{T: rt, L: []*Term{id, Int(0), Add(slen, xlen)}}
+}
+
+// usesCallsDeep looks through spec function macros as well.
+func (ex *Exec) usesCallsDeep(pkgPath string, e *SExpr, seen map[*SpecFunc]bool) bool {
+	if e == nil {
+		return false
+	}
+	if e.Op == "call" && len(e.Args) > 0 && e.Args[0].Op == "id" {
+		if e.Args[0].Name == "calls" || e.Args[0].Name == "lastresult" {
+			return true
+		}
+		if sf := ex.eng.findSpecFunc(pkgPath, e.Args[0].Name); sf != nil && sf.Body != nil && !seen[sf] {
+			seen[sf] = true
+			if ex.usesCallsDeep(sf.PkgPath, sf.Body, seen) {
+				return true
+			}
+		}
+	}
+	for _, a := range e.Args {
+		if ex.usesCallsDeep(pkgPath, a, seen) {
+			return true
+		}
+	}
+	return false
 }
 
 func usesCalls(e *SExpr) bool {
